@@ -597,6 +597,10 @@ func UnmarshalArrayYAML(value *yaml.Node) (*GeneralizedType, error) {
 					return nil, err
 				}
 
+				if ndims < 0 || ndims > 64 {
+					return nil, parseError(v, "the number of array dimensions must be between 0 and 64")
+				}
+
 				dims := make(ArrayDimensions, ndims)
 				for i := range dims {
 					dims[i] = &ArrayDimension{NodeMeta: createNodeMeta(v)}
